@@ -20,6 +20,10 @@ func TestVerifDriver(t *testing.T) {
 		runC07(em, r)
 	case "C06":
 		runC06(em, r)
+	case "C04":
+		runC04(em, r)
+	case "C12":
+		runC12(em, r)
 	case "C19":
 		runC19(em, r)
 	case "C18":
